@@ -45,11 +45,11 @@ theorem exCode_inj {a b : Option Ex} (h : exCode a = exCode b) : a = b := by
 
 theorem Th.beq_eq {a b : Th} (h : a.beq b = true) : a = b := by
   simp only [Th.beq, Bool.and_eq_true, beq_iff_eq] at h
-  obtain ⟨⟨⟨⟨⟨⟨⟨⟨⟨⟨h1, h2⟩, h3⟩, h4⟩, h5⟩, h6⟩, h7⟩, h8⟩, h9⟩, h10⟩, h11⟩ := h
+  obtain ⟨⟨⟨⟨⟨⟨⟨⟨⟨⟨⟨⟨h1, h2⟩, h3⟩, h4⟩, h5⟩, h6⟩, h7⟩, h8⟩, h9⟩, h10⟩, h11⟩, h12⟩, h13⟩ := h
   cases a; cases b
   simp only [Th.mk.injEq]
   exact ⟨h2, h1, stackBeq_eq h7, boolBeq_eq h5, h6, exCode_inj h8, Park.code_inj h3, boolBeq_eq h9, boolBeq_eq h10,
-         boolBeq_eq h11, Status.code_inj h4⟩
+         boolBeq_eq h11, h12, h13, Status.code_inj h4⟩
 
 theorem thsBeq_eq : ∀ {a b : List Th}, thsBeq a b = true → a = b
   | [], [], _ => rfl
@@ -61,11 +61,11 @@ theorem thsBeq_eq : ∀ {a b : List Th}, thsBeq a b = true → a = b
 
 theorem St.beq_eq {a b : St} (h : a.beq b = true) : a = b := by
   simp only [St.beq, Bool.and_eq_true, beq_iff_eq] at h
-  obtain ⟨⟨⟨⟨⟨⟨⟨⟨⟨h1, h2⟩, h3⟩, h4⟩, h5⟩, h6⟩, h7⟩, h9⟩, h10⟩, h8⟩ := h
+  obtain ⟨⟨⟨⟨⟨⟨⟨⟨⟨⟨⟨h1, h2⟩, h3⟩, h3b⟩, h4⟩, h5⟩, h6⟩, h6b⟩, h7⟩, h9⟩, h10⟩, h8⟩ := h
   cases a; cases b
   simp only [St.mk.injEq]
-  exact ⟨boolBeq_eq h1, boolBeq_eq h2, h3, optNatBeq_eq h4, optNatBeq_eq h5, optNatBeq_eq h6, h7, h9, natListBeq_eq h10,
-         thsBeq_eq h8⟩
+  exact ⟨boolBeq_eq h1, h2, h3, h3b, optNatBeq_eq h4, optNatBeq_eq h5, optNatBeq_eq h6, optNatBeq_eq h6b, h7, h9,
+         natListBeq_eq h10, thsBeq_eq h8⟩
 
 theorem memBucket_sound {k : Nat} {s : St} : ∀ {l : List (Nat × St)}, memBucket k s l = true → s ∈ l.map (·.2)
   | [], h => by simp [memBucket] at h
